@@ -7,7 +7,7 @@ its fragments joined by `/` (`k<hex>` member, `i<int>` index, `w` wildcard; the 
 a list of paths joined by `;` (`-` when empty).
 
 * `diff <s|g> <dev> <0|1> <v0> <v1> <ignores>` — model of Diff (`0`) / of the `one` mode (`1`);
-  `<dev>` is a subset of the letters `l f t g` (`Dev` flags) or `-`
+  `<dev>` is `cur` (`Dev.current`), a subset of the letters `l f t g` (`Dev` flags) or `-`
 * `spec <v0> <v1> <ignores>` — specification: the leaf differences no ignore path covers
 * `match <s|g> <dev> <fingerprint> <target>` — model of Match; `specmatch <f> <t>` — specification -/
 namespace OjgVerif.Diff
@@ -107,7 +107,8 @@ def pathsText (ps : List Path) : String :=
   if ps.isEmpty then "-" else String.intercalate ";" (ps.map pathText)
 
 def readDev (s : String) : Option Dev :=
-  if s.toList.all (fun c => c = 'l' || c = 'f' || c = 't' || c = 'g' || c = '-') then
+  if s = "cur" then some Dev.current
+  else if s.toList.all (fun c => c = 'l' || c = 'f' || c = 't' || c = 'g' || c = '-') then
     some ⟨s.contains 'l', s.contains 'f', s.contains 't', s.contains 'g'⟩
   else none
 
